@@ -46,7 +46,7 @@ class UpperT:
 class Send(Harness):
     name = "c05_send"
     must_reach = ("acked-first", "acked-after-repeat", "exhausted-timeout", "exhausted-nak", "error-frame", "recovered",
-                  "queued-send-failed", "repeat-after-nak", "repeat-after-timeout")
+                  "queued-send-failed", "repeat-after-nak", "repeat-after-timeout", "reset-requested-while-failed")
     functions = ("AshProtocol.send_data", "AshProtocol._send_data_frame", "AshProtocol._enter_failed_state",
                  "AshProtocol.error_frame_received", "AshProtocol.nak_frame_received", "AshProtocol._handle_ack",
                  "AshProtocol.rstack_frame_received", "AshProtocol._change_ack_timeout", "AshProtocol._write_frame")
@@ -150,6 +150,11 @@ class Send(Harness):
                     # recovery: a further send must fail silently, an RSTACK must revive the link with numbering restarted
                     st["scripted"] = "ack"
                     await caller(q)
+                    if ctx.flag("host_requests_reset"):
+                        # the upper layer starts its reset (RST written); until the RSTACK arrives the link is still failed
+                        ctx.label("reset-requested-while-failed")
+                        p.send_reset()
+                        await caller(q + 2)
                     code = ctx.byte("rstack")
                     ev.append(("rx", loop.time(), "RSTACK", code))
                     p.frame_received(ash.RStackFrame(version=2, reset_code=code))
@@ -226,7 +231,7 @@ def monitor(ctx, ev, tx0, q, boundary):
                 ctx.label("exhausted-nak" if nak_end else "exhausted-timeout")
 
     # P5: outcome
-    for k in range(q + 2):
+    for k in range(q + 3):
         if k not in done:
             continue
         di, dt, out = done[k]
@@ -311,6 +316,8 @@ def monitor(ctx, ev, tx0, q, boundary):
     # recovery phase expectations
     if q in done:
         ctx.check(done[q][2] != "ok" and q not in sends, "a send on the failed link was transmitted or succeeded", "failed-link-send")
+        if q + 2 in done:
+            ctx.check(done[q + 2][2] != "ok" and q + 2 not in sends, "a send issued after the host's RST but before the RSTACK was transmitted or succeeded", "send-between-rst-and-rstack")
         if q + 1 in done:
             ctx.check(done[q + 1][2] == "ok", "send after the RSTACK failed with %s" % done[q + 1][2], "send-after-rstack")
             if q + 1 in sends:
@@ -394,8 +401,60 @@ class MidReset(Harness):
         ctx.observe([_short(e) for e in ev])
 
 
+class TwoLinks(Harness):
+    """Two independent ASH links in one process (two coordinators, or an old and a new connection) with the same frame
+    number in flight: an acknowledgement on one link acknowledges nothing on the other."""
+
+    name = "c05_two_links"
+    must_reach = ("acked-link-returns",)
+    functions = ("AshProtocol.__init__", "AshProtocol._send_data_frame", "AshProtocol._handle_ack")
+
+    def run(self, ctx):
+        ash = real_ash()
+        tx = (0, 7)[ctx.choice("tx", 2)]
+        acked = ctx.choice("acked_link", 2)
+        first = ctx.choice("first_sender", 2)
+        ev = []
+
+        async def main(loop):
+            links = []
+            for i in range(2):
+                up = UpperT(loop, ev)
+                p = ash.AshProtocol(up)
+                tr = FakeTransport(loop)
+                p.connection_made(tr)
+                p._tx_seq = tx
+                links.append((p, tr))
+            out = {}
+
+            async def caller(i):
+                try:
+                    await links[i][0].send_data(PAY[i])
+                    out[i] = ("ok", loop.time())
+                except Exception as e:
+                    out[i] = (type(e).__name__, loop.time())
+
+            order = [first, 1 - first]
+            tasks = [loop.create_task(caller(order[0]))]
+            await asyncio.sleep(0.01)
+            tasks.append(loop.create_task(caller(order[1])))
+            await asyncio.sleep(0.19)
+            links[acked][0].frame_received(ash.AckFrame(res=0, ncp_ready=0, ack_num=(tx + 1) % 8))
+            await asyncio.gather(*tasks)
+            ctx.label("acked-link-returns")
+            ctx.check(out[acked][0] == "ok" and abs(out[acked][1] - 0.2) < EPS, "the acknowledged link's send ended with %s at %.3f s" % out[acked], "two-links-acked")
+            other = 1 - acked
+            ctx.check(out[other][0] != "ok", "a send on a link whose peer is silent returned normally because ANOTHER link was acknowledged", "two-links-cross-ack")
+            n_other = len([w for w in links[other][1].writes])
+            ctx.check(n_other == R.MAX_ATTEMPTS, "the silent link transmitted %d times (budget %d)" % (n_other, R.MAX_ATTEMPTS), "two-links-budget")
+            ctx.observe(tx, acked, first, out[0][0], out[1][0])
+
+        vloop.run(main)
+
+
 SEND = Send()
 MIDRESET = MidReset()
+TWOLINKS = TwoLinks()
 
 FLOATS = [float("nan"), float("inf"), float("-inf"), -1.0, 0.0, 0.39, 0.4, 0.41, 1.6, 3.19, 3.2, 3.21, 6.4, 1e308, -1e308, 5e-324]
 
@@ -469,6 +528,7 @@ def main(tier):
         c.run("checks.c05:SEND", {"q": 2, "T": 6, "stale": 0, "timing": 2, "txs": [7]})
         c.out_of_bounds += ["free peer reactions beyond the first 6-7 DATA transmissions", "more than two off-instant reactions per run"]
     c.run("checks.c05:MIDRESET", {})
+    c.run("checks.c05:TWOLINKS", {})
     c.run("checks.c05:CLAMP", {})
     ok, bad, out = lemma_timeout_clamp(c)
     if bad and not c.violation_lines:
